@@ -317,4 +317,142 @@ theorem hardLoopH_refines (grow : Nat → Nat → Nat) (cells : Slice) (h0 : Hea
       rw [r1] at this
       exact this
 
+/-! ### the long-word loop on the heap computes `splitLong` -/
+
+/-- Two slices that an in-place `append` to one cannot make interfere. -/
+def Sep (r t : Slice) : Prop := r.arr ≠ t.arr ∨ r.cap = 0 ∨ t.cap = 0
+
+theorem arrOf_set_ne (h : Heap) (i j : Nat) (v : List Cell) (hne : j ≠ i) : arrOf (h.set i v) j = arrOf h j := by
+  simp only [arrOf, List.getD_eq_getElem?_getD]
+  rw [List.getElem?_set_ne (by omega)]
+
+theorem arrOf_append_old (h : Heap) (v : List Cell) (j : Nat) (hj : j < h.length) : arrOf (h ++ [v]) j = arrOf h j := by
+  simp only [arrOf, List.getD_eq_getElem?_getD]
+  rw [List.getElem?_append_left hj]
+
+/-- `append` to `s` leaves another slice `t` alone. -/
+theorem append_other (grow : Nat → Nat → Nat) (h : Heap) (s t : Slice) (xs : List Cell)
+    (ws : WFS h s) (hs : s.arr < h.length) (wt : WFS h t) (ht : t.arr < h.length) (sep : Sep s t) :
+    VaxisModel.Model.WrapHeap.read (append grow h s xs).1 t = VaxisModel.Model.WrapHeap.read h t ∧
+    WFS (append grow h s xs).1 t ∧ Sep (append grow h s xs).2 t := by
+  unfold append
+  by_cases hx : xs.isEmpty = true
+  · simp only [hx, ↓reduceIte]; exact ⟨trivial, wt, sep⟩
+  · simp only [hx, Bool.false_eq_true, ↓reduceIte]
+    have hpos : 0 < xs.length := by
+      cases xs with
+      | nil => simp at hx
+      | cons _ _ => simp
+    by_cases hc : s.len + xs.length ≤ s.cap
+    · simp only [hc, ↓reduceIte]
+      have hcap : s.cap ≠ 0 := by omega
+      by_cases hne : t.arr = s.arr
+      · -- then t has no capacity: it denotes nothing, and stays inside the (equally long) array
+        have ht0 : t.cap = 0 := by
+          rcases sep with h1 | h1 | h1
+          · exact absurd hne.symm h1
+          · exact absurd h1 hcap
+          · exact h1
+        have hl0 : t.len = 0 := by have := wt.2; omega
+        have hlen : (arrOf (h.set s.arr (writeAt (arrOf h s.arr) (s.off + s.len) xs)) t.arr).length = (arrOf h t.arr).length := by
+          rw [hne, arrOf_set_self h s.arr _ hs, writeAt_length _ _ _ (by have := ws.1; omega)]
+        refine ⟨?_, ⟨by rw [hlen]; exact wt.1, wt.2⟩, Or.inr (Or.inr ht0)⟩
+        simp [VaxisModel.Model.WrapHeap.read, hl0]
+      · have he := arrOf_set_ne h s.arr t.arr (writeAt (arrOf h s.arr) (s.off + s.len) xs) hne
+        refine ⟨by simp only [VaxisModel.Model.WrapHeap.read, he], ⟨by rw [he]; exact wt.1, wt.2⟩, Or.inl (fun e => hne e.symm)⟩
+    · simp only [hc, ↓reduceIte]
+      have he := arrOf_append_old h (VaxisModel.Model.WrapHeap.read h s ++ xs ++
+        List.replicate (max (s.len + xs.length) (grow s.cap (s.len + xs.length)) - (s.len + xs.length)) default) t.arr ht
+      refine ⟨by unfold VaxisModel.Model.WrapHeap.read at he ⊢; rw [he], ⟨by rw [he]; exact wt.1, wt.2⟩, Or.inl (by simp only []; omega)⟩
+
+theorem Sep.symm {r t : Slice} (h : Sep r t) : Sep t r := by
+  rcases h with h | h | h
+  · exact Or.inl (fun e => h e.symm)
+  · exact Or.inr (Or.inr h)
+  · exact Or.inr (Or.inl h)
+
+theorem append_len (grow : Nat → Nat → Nat) (h : Heap) (s : Slice) (xs : List Cell) :
+    (append grow h s xs).2.len = s.len + xs.length := by
+  unfold append
+  by_cases hx : xs.isEmpty = true
+  · have : xs = [] := List.isEmpty_iff.mp hx
+    subst this; simp
+  · simp only [hx, Bool.false_eq_true, ↓reduceIte]
+    split <;> rfl
+
+/-- Element `i` of a slice into an array the loop does not write. -/
+theorem elem_at (h h0 : Heap) (s : Slice) (i : Nat) (ws : WFS h0 s) (hA : arrOf h s.arr = arrOf h0 s.arr)
+    (hi : i < s.len) :
+    ∃ c, (arrOf h s.arr).getD (s.off + i) default = c ∧
+      (VaxisModel.Model.WrapHeap.read h0 s).drop i = c :: (VaxisModel.Model.WrapHeap.read h0 s).drop (i + 1) := by
+  have hlen := read_length ws
+  have hilt : i < (VaxisModel.Model.WrapHeap.read h0 s).length := by omega
+  have hoff : s.off + i < (arrOf h0 s.arr).length := by have := ws.1; have := ws.2; omega
+  refine ⟨(VaxisModel.Model.WrapHeap.read h0 s)[i], ?_, List.drop_eq_getElem_cons hilt⟩
+  rw [hA]
+  simp [List.getD_eq_getElem?_getD, List.getElem?_eq_getElem hoff, VaxisModel.Model.WrapHeap.read]
+
+/-- The long-word loop on the heap computes `splitLong`: what it appends to `s.token` and to `s.rest`. -/
+theorem splitLongH_refines (grow : Nat → Nat → Nat) (width : Nat) (word : Slice) (h0 : Heap) (n0 : Nat)
+    (hw : word.arr < n0) (ww : WFS h0 word) :
+    ∀ (n i : Nat) (h : Heap) (rest token : Slice) (w : Nat), i + n = word.len → n0 ≤ h.length →
+      (∀ j, j < n0 → arrOf h j = arrOf h0 j) → Good n0 h rest → Good n0 h token → WFS h rest → WFS h token →
+      Sep rest token →
+      VaxisModel.Model.WrapHeap.read (splitLongH grow width word i n h rest token w).1 (splitLongH grow width word i n h rest token w).2.1 =
+        VaxisModel.Model.WrapHeap.read h rest ++
+          (splitLong width (decide (token.len > 0)) w ((VaxisModel.Model.WrapHeap.read h0 word).drop i)).2 ∧
+      VaxisModel.Model.WrapHeap.read (splitLongH grow width word i n h rest token w).1 (splitLongH grow width word i n h rest token w).2.2 =
+        VaxisModel.Model.WrapHeap.read h token ++
+          (splitLong width (decide (token.len > 0)) w ((VaxisModel.Model.WrapHeap.read h0 word).drop i)).1 ∧
+      WFS (splitLongH grow width word i n h rest token w).1 (splitLongH grow width word i n h rest token w).2.1 ∧
+      WFS (splitLongH grow width word i n h rest token w).1 (splitLongH grow width word i n h rest token w).2.2 ∧
+      Sep (splitLongH grow width word i n h rest token w).2.1 (splitLongH grow width word i n h rest token w).2.2 := by
+  have hlen := read_length ww
+  intro n
+  induction n with
+  | zero =>
+    intro i h rest token w hi _ _ _ _ wr wt sep
+    have : (VaxisModel.Model.WrapHeap.read h0 word).drop i = [] := List.drop_eq_nil_of_le (by omega)
+    simp only [splitLongH, splitLong, this, List.append_nil]
+    exact ⟨trivial, trivial, wr, wt, sep⟩
+  | succ n ih =>
+    intro i h rest token w hi hn hfr gr gt wr wt sep
+    obtain ⟨c, helem, hdrop⟩ := elem_at h h0 word i ww (hfr _ hw) (by omega)
+    simp only [splitLongH, helem]
+    rw [hdrop]
+    have hp : ∀ cs, splitLong width (decide (token.len > 0)) w (c :: cs) =
+        if longW token.len w c.w width ≥ width then
+          ((splitLong width (decide (token.len > 0)) (longW token.len w c.w width) cs).1,
+            c :: (splitLong width (decide (token.len > 0)) (longW token.len w c.w width) cs).2)
+        else
+          (c :: (splitLong width true (longW token.len w c.w width + c.w) cs).1,
+            (splitLong width true (longW token.len w c.w width + c.w) cs).2) := by
+      intro cs
+      rw [splitLong]
+      rfl
+    rw [hp]
+    generalize longW token.len w c.w width = w'
+    by_cases hge : w' ≥ width
+    · simp only [hge, ↓reduceIte]
+      obtain ⟨f1, g1⟩ := append_frame grow h rest [c] n0 hn gr
+      obtain ⟨r1, w1⟩ := append_read grow h rest [c] wr gr.2
+      obtain ⟨o1, o2, o3⟩ := append_other grow h rest token [c] wr gr.2 wt gt.2 sep
+      obtain ⟨a, b, c1, c2, c3⟩ := ih (i + 1) _ _ token w' (by omega) (Nat.le_trans hn f1.1)
+        (fun j hj => (f1.2 j hj).trans (hfr j hj)) g1 (gt.mono f1.1) w1 o2 o3
+      rw [r1] at a
+      rw [o1] at b
+      exact ⟨by rw [a]; simp, b, c1, c2, c3⟩
+    · simp only [hge, ↓reduceIte]
+      obtain ⟨f1, g1⟩ := append_frame grow h token [c] n0 hn gt
+      obtain ⟨r1, w1⟩ := append_read grow h token [c] wt gt.2
+      obtain ⟨o1, o2, o3⟩ := append_other grow h token rest [c] wt gt.2 wr gr.2 sep.symm
+      have hl : decide ((append grow h token [c]).2.len > 0) = true := by
+        rw [append_len]; simp
+      obtain ⟨a, b, c1, c2, c3⟩ := ih (i + 1) _ rest _ (w' + c.w) (by omega) (Nat.le_trans hn f1.1)
+        (fun j hj => (f1.2 j hj).trans (hfr j hj)) (gr.mono f1.1) g1 o2 w1 o3.symm
+      rw [hl] at a b
+      rw [o1] at a
+      rw [r1] at b
+      exact ⟨a, by rw [b]; simp, c1, c2, c3⟩
+
 end VaxisModel.Lemmas.WrapHeap
